@@ -3,6 +3,8 @@
 package join
 
 import (
+	"strconv"
+
 	"context"
 
 	logutil "github.com/boz/go-logutil"
@@ -528,7 +530,22 @@ func VerifC09_EndToEnd() {
 
 	K := zzverif.Param("KE", 3)
 	for k := 0; k < K; k++ {
-		switch zzverif.NondetInt("action", 0, 3) {
+		switch zzverif.NondetInt("action", 0, 4) {
+		case 4: // an existing pod is relabelled (a newer version of it with the other label value)
+			if len(pods) == 0 {
+				zzverif.Assume(false)
+			}
+			i := zzverif.NondetInt("relabel.i", 0, len(pods)-1)
+			old := pods[i]
+			other := "x"
+			if old.Labels["app"] == "x" {
+				other = "y"
+			}
+			np := &corev1.Pod{ObjectMeta: metav1.ObjectMeta{Namespace: old.Namespace, Name: old.Name, ResourceVersion: strconv.Itoa(2 + k),
+				Labels: map[string]string{"app": other}}}
+			pods[i] = np
+			tree.Update(np)
+			zzverif.Reach("C09/end-to-end/pod-relabelled")
 		case 0:
 			if srcReady {
 				zzverif.Assume(false)
